@@ -510,14 +510,18 @@ class Signature(types.Signature):
         yield (argname(i), posarg, formal)
       else:
         yield (argname(i), posarg, None)
+    # A keyword binds a parameter only if that parameter can be passed by name;
+    # every other keyword (including one spelled like a positional-only
+    # parameter or like the *args/**kwargs parameter itself) lands in **kwargs.
+    keyword_params = set(self.param_names[self.posonly_count :])
+    keyword_params.update(self.kwonly_params)
     for name in sorted(args.namedargs):
       namedarg = args.namedargs[name]
-      if name in self.param_names[: self.posonly_count]:
-        formal = None
-      else:
+      if name in keyword_params:
         formal = self.annotations.get(name)
-      if formal is None and self.kwargs_name:
-        kwargs_type = self.annotations.get(self.kwargs_name)
+      else:
+        formal = None
+        kwargs_type = self.kwargs_name and self.annotations.get(self.kwargs_name)
         if kwargs_type:
           formal = kwargs_type.ctx.convert.get_element_type(kwargs_type)
       yield (name, namedarg, formal)
